@@ -452,7 +452,7 @@ def run(ctx):
     except ValueError:
         capn = 0
     if ctx.quick:
-        pairs = vlib.sample(ctx, pairs_all, 2400)
+        pairs = vlib.sample(ctx, pairs_all, 1600)
     elif capn:
         pairs = vlib.sample(ctx, pairs_all, capn)
     else:
